@@ -4,7 +4,7 @@ rounding to the three output precisions.  Exact `Rat` only; implementation-indep
 -/
 import DdsModel.ConvF32
 namespace Dds.Spec
-open Dds.F32
+open Dds.CF32
 
 /-- UNORM: `v / (2^n - 1)` -/
 def unorm (n v : Nat) : Rat := (v : Rat) / ((2 ^ n - 1 : Nat) : Rat)
